@@ -7,7 +7,7 @@ import os
 from . import common as C
 
 THEOREMS = ["ShipVerif.Double.C05_rule_agreement", "ShipVerif.Double.keepNew_order", "ShipVerif.Double.C05_double_connection",
-            "ShipVerif.Double.C05_progress", "ShipVerif.Double.keepRule_expected", "ShipVerif.Double.R_closed"]
+            "ShipVerif.Double.C05_progress", "ShipVerif.Double.keepRule_expected", "ShipVerif.Double.establish_atomic_expected", "ShipVerif.Double.R_closed"]
 
 
 def run_engine(d, seed, n, ops, only=-1):
